@@ -68,6 +68,200 @@ _DN_READ_OLD = (
     "            d = download_to_data(self._node)\n"
     "        d.addCallback(self._unpack_contents)\n")
 
+# ---- move_child_to re-written as an inlineCallbacks generator (the refactor seeded as C20-I, done faithfully):
+# `yield d` / `x = yield d` is the sequencing form of returning / chaining d
+_MOVE_ANCHOR = "    def move_child_to(self, current_child_namex, new_parent,\n"
+_MOVE_BODY_OLD = """        if self.is_readonly() or new_parent.is_readonly():
+            return defer.fail(NotWriteableError())
+
+        current_child_name = normalize(current_child_namex)
+        if new_child_namex is None:
+            new_child_name = current_child_name
+        else:
+            new_child_name = normalize(new_child_namex)
+
+        from_uri = self.get_write_uri()
+        if new_parent.get_write_uri() == from_uri and new_child_name == current_child_name:
+            # needed for correctness, otherwise we would delete the child
+            return defer.succeed("redundant rename/relink")
+
+        d = self.get_child_and_metadata(current_child_name)
+        def _got_child(child_and_metadata):
+            (child, metadata) = child_and_metadata
+            return new_parent.set_node(new_child_name, child, metadata,
+                                       overwrite=overwrite)
+        d.addCallback(_got_child)
+        d.addCallback(lambda child: self.delete(current_child_name))
+        return d
+"""
+_IMOVE_STEPS = ("        (child, metadata) = yield self.get_child_and_metadata(current_child_namex)\n"
+                "        yield new_parent.set_node(new_child_namex, child, metadata,\n"
+                "                                  overwrite=overwrite)\n"
+                "        old_child = yield self.delete(current_child_namex)\n"
+                "        return old_child\n")
+
+
+def IM(mid, expect, steps=_IMOVE_STEPS, decorator="    @defer.inlineCallbacks\n"):
+    body = ("        if self.is_readonly() or new_parent.is_readonly():\n"
+            "            raise NotWriteableError()\n\n"
+            "        if new_child_namex is None:\n"
+            "            new_child_namex = current_child_namex\n\n"
+            "        if (new_parent.get_write_uri() == self.get_write_uri()\n"
+            "            and normalize(new_child_namex) == normalize(current_child_namex)):\n"
+            "            # needed for correctness, otherwise we would delete the child\n"
+            "            return \"redundant rename/relink\"\n\n" + steps)
+    return M(mid, DN, _MOVE_BODY_OLD, body, expect, edits=[(DN, _MOVE_ANCHOR, decorator + _MOVE_ANCHOR)])
+
+
+# ---- NodeMaker._create_from_single_cap's isinstance chain replaced by a module-level (factory name, cap classes) table
+# and getattr(self, name) (the refactor seeded as C19-I, done faithfully)
+_NM_IMPORT = "from allmydata import uri\n\n\n@implementer(INodeMaker)\n"
+_NM_CHAIN = ("    def _create_from_single_cap(self, cap):\n"
+             "        if isinstance(cap, uri.LiteralFileURI):\n"
+             "            return self._create_lit(cap)\n"
+             "        if isinstance(cap, uri.CHKFileURI):\n"
+             "            return self._create_immutable(cap)\n"
+             "        if isinstance(cap, uri.CHKFileVerifierURI):\n"
+             "            return self._create_immutable_verifier(cap)\n"
+             "        if isinstance(cap, (uri.ReadonlySSKFileURI, uri.WriteableSSKFileURI,\n"
+             "                            uri.WriteableMDMFFileURI, uri.ReadonlyMDMFFileURI)):\n"
+             "            return self._create_mutable(cap)\n"
+             "        if isinstance(cap, (uri.DirectoryURI,\n"
+             "                            uri.ReadonlyDirectoryURI,\n"
+             "                            uri.ImmutableDirectoryURI,\n"
+             "                            uri.LiteralDirectoryURI,\n"
+             "                            uri.MDMFDirectoryURI,\n"
+             "                            uri.ReadonlyMDMFDirectoryURI)):\n"
+             "            filenode = self._create_from_single_cap(cap.get_filenode_cap())\n"
+             "            return self._create_dirnode(filenode)\n"
+             "        return None\n")
+_NM_DIRNODE = ("    def _create_dirnode(self, filenode):\n"
+               "        return DirectoryNode(filenode, self, self.uploader)\n")
+_NM_DIRNODE_FROM_CAP = (_NM_DIRNODE +
+                        "    def _create_dirnode_from_cap(self, cap):\n"
+                        "        filenode = self._create_from_single_cap(cap.get_filenode_cap())\n"
+                        "        return self._create_dirnode(filenode)\n")
+_NM_LOOP_BODY = ("        for (factory_name, cap_classes) in _NODE_FACTORIES:\n"
+                 "            if isinstance(cap, cap_classes):\n"
+                 "                return getattr(self, factory_name)(cap)\n"
+                 "        return None\n")
+_NM_LOOP = "    def _create_from_single_cap(self, cap):\n" + _NM_LOOP_BODY
+_NM_TABLE = ("from allmydata import uri\n\n\n"
+             "_NODE_FACTORIES = [\n"
+             "    (\"_create_lit\", (uri.LiteralFileURI,)),\n"
+             "    (\"_create_immutable\", (uri.CHKFileURI,)),\n"
+             "    (\"_create_immutable_verifier\", (uri.CHKFileVerifierURI,)),\n"
+             "    (\"_create_mutable\", (uri.WriteableSSKFileURI,\n"
+             "                         uri.ReadonlySSKFileURI,\n"
+             "                         uri.WriteableMDMFFileURI,\n"
+             "                         uri.ReadonlyMDMFFileURI)),\n"
+             "    (\"_create_dirnode_from_cap\", (uri.DirectoryURI,\n"
+             "                                  uri.ReadonlyDirectoryURI,\n"
+             "                                  uri.ImmutableDirectoryURI,\n"
+             "                                  uri.LiteralDirectoryURI,\n"
+             "                                  uri.MDMFDirectoryURI,\n"
+             "                                  uri.ReadonlyMDMFDirectoryURI)),\n"
+             "]\n\n\n@implementer(INodeMaker)\n")
+
+
+def TBL(mid, expect, loop=_NM_LOOP, dirnode=_NM_DIRNODE_FROM_CAP, table=_NM_TABLE):
+    return M(mid, NM, _NM_IMPORT, table, expect, edits=[(NM, _NM_DIRNODE, dirnode), (NM, _NM_CHAIN, loop)])
+
+
+# ---- NodeMaker.create_from_cap split into helpers (_memokey, _create_uncached, _check_blacklist; dict.get for the
+# lookup) - the refactor seeded as C18-I, done faithfully.  The memo rules do not follow create_from_cap through
+# helpers on self: this shape is an analysis error (fail closed), never a violation.
+_CFC_OLD = (
+    '    def create_from_cap(self, writecap, readcap=None, deep_immutable=False, name=u"<unknown name>"):\n'
+    '        # this returns synchronously. It starts with a "cap string".\n'
+    '        assert isinstance(writecap, (bytes, type(None))), type(writecap)\n'
+    '        assert isinstance(readcap,  (bytes, type(None))), type(readcap)\n'
+    '\n'
+    '        bigcap = writecap or readcap\n'
+    '        if not bigcap:\n'
+    "            # maybe the writecap was hidden because we're in a readonly\n"
+    "            # directory, and the future cap format doesn't have a readcap, or\n"
+    '            # something.\n'
+    '            return UnknownNode(None, None)  # deep_immutable and name not needed\n'
+    '\n'
+    "        # The name doesn't matter for caching since it's only used in the error\n"
+    "        # attribute of an UnknownNode, and we don't cache those.\n"
+    '        if deep_immutable:\n'
+    '            memokey = b"I" + bigcap\n'
+    '        else:\n'
+    '            memokey = b"M" + bigcap\n'
+    '        try:\n'
+    '            node = self._node_cache[memokey]\n'
+    '        except KeyError:\n'
+    '            cap = uri.from_string(bigcap, deep_immutable=deep_immutable,\n'
+    '                                  name=name)\n'
+    '            node = self._create_from_single_cap(cap)\n'
+    '\n'
+    '            # node is None for an unknown URI, otherwise it is a type for which\n'
+    '            # is_mutable() is known. We avoid cacheing mutable nodes due to\n'
+    '            # ticket #1679.\n'
+    '            if node is None:\n'
+    "                # don't cache UnknownNode\n"
+    '                node = UnknownNode(writecap, readcap,\n'
+    '                                   deep_immutable=deep_immutable, name=name)\n'
+    '            elif node.is_mutable():\n'
+    '                self._node_cache[memokey] = node  # note: WeakValueDictionary\n'
+    '\n'
+    '        if self.blacklist:\n'
+    '            si = node.get_storage_index()\n'
+    '            # if this node is blacklisted, return the reason, otherwise return None\n'
+    '            reason = self.blacklist.check_storageindex(si)\n'
+    '            if reason is not None:\n'
+    '                # The original node object is cached above, not the ProhibitedNode wrapper.\n'
+    '                # This ensures that removing the blacklist entry will make the node\n'
+    '                # accessible if create_from_cap is called again.\n'
+    '                node = ProhibitedNode(node, reason)\n'
+    '        return node\n'
+    '\n'
+)
+_CFC_SPLIT = (
+    '    @staticmethod\n'
+    '    def _memokey(writecap, readcap, deep_immutable):\n'
+    '        prefix = b"I" if deep_immutable else b"M"\n'
+    '        return prefix + (writecap or readcap)\n'
+    '\n'
+    '    def _create_uncached(self, writecap, readcap, deep_immutable, name):\n'
+    '        cap = uri.from_string(writecap or readcap, deep_immutable=deep_immutable,\n'
+    '                              name=name)\n'
+    '        node = self._create_from_single_cap(cap)\n'
+    '        if node is None:\n'
+    '            return UnknownNode(writecap, readcap,\n'
+    '                               deep_immutable=deep_immutable, name=name)\n'
+    '        return node\n'
+    '\n'
+    '    def _check_blacklist(self, node):\n'
+    '        if not self.blacklist:\n'
+    '            return node\n'
+    '        si = node.get_storage_index()\n'
+    '        reason = self.blacklist.check_storageindex(si)\n'
+    '        if reason is None:\n'
+    '            return node\n'
+    '        return ProhibitedNode(node, reason)\n'
+    '\n'
+    '    def create_from_cap(self, writecap, readcap=None, deep_immutable=False, name=u"<unknown name>"):\n'
+    '        assert isinstance(writecap, (bytes, type(None))), type(writecap)\n'
+    '        assert isinstance(readcap,  (bytes, type(None))), type(readcap)\n'
+    '\n'
+    '        if not (writecap or readcap):\n'
+    '            return UnknownNode(None, None)\n'
+    '\n'
+    '        memokey = self._memokey(writecap, readcap, deep_immutable)\n'
+    '        node = self._node_cache.get(memokey)\n'
+    '        if node is None:\n'
+    '            node = self._create_uncached(writecap, readcap, deep_immutable, name)\n'
+    '            if not isinstance(node, UnknownNode) and node.is_mutable():\n'
+    '                self._node_cache[memokey] = node\n'
+    '\n'
+    '        return self._check_blacklist(node)\n'
+    '\n'
+)
+
+
 MUTANTS = [
     # ---- C13.1 public operations enter through the serialiser
     M("modify-bypasses-serializer", FN,
@@ -432,7 +626,42 @@ MUTANTS = [
     M("benign-dirnode-size-of-best-version", DN,
       "        return self._node.get_current_size()\n",
       "        return self._node.get_size_of_best_version()\n", None),
+    # ---- C13.7 in the inlineCallbacks shape (seeded C20-I): a yielded Deferred is waited for, a merely started or a
+    # returned one is not
+    IM("benign-imove-faithful", None),
+    IM("benign-imove-deferred-in-local-then-yielded", None,
+       steps=_IMOVE_STEPS.replace("        yield new_parent.set_node(new_child_namex, child, metadata,\n"
+                                  "                                  overwrite=overwrite)\n",
+                                  "        linking = new_parent.set_node(new_child_namex, child, metadata,\n"
+                                  "                                      overwrite=overwrite)\n"
+                                  "        yield linking\n")),
+    IM("imove-link-started-not-yielded", "C13.7",
+       steps=_IMOVE_STEPS.replace("        yield new_parent.set_node(", "        new_parent.set_node(")),
+    IM("imove-unlink-returned-not-yielded", "C13.7",
+       steps=_IMOVE_STEPS.replace("        old_child = yield self.delete(", "        old_child = self.delete(")),
+    IM("imove-unlink-in-local-never-yielded", "C13.7",
+       steps=_IMOVE_STEPS.replace("        old_child = yield self.delete(current_child_namex)\n        return old_child\n",
+                                  "        unlinking = self.delete(current_child_namex)\n"
+                                  "        unlinking.addErrback(log.err)\n")),
+    # ---- C13.4 with the factories looked up through a (name, classes) table + getattr(self, name) (seeded C19-I)
+    TBL("benign-factory-table-getattr", None),
+    TBL("benign-factory-table-dirnode-step-inline", None, dirnode=_NM_DIRNODE +
+        "    def _create_dirnode_from_cap(self, cap):\n"
+        "        return self._create_dirnode(self._create_from_single_cap(cap.get_filenode_cap()))\n"),
+    # a second, public way into the table: nodes for an already parsed cap are built without the memo
+    TBL("factory-table-public-entry-bypasses-memo", "C13.4", loop=_NM_LOOP +
+        "\n    def create_from_parsed_cap(self, cap):\n"
+        "        # callers that already hold a parsed cap skip the string round-trip\n" + _NM_LOOP_BODY),
+    # the split-off directory step becomes reachable from outside the single-cap factory
+    TBL("factory-table-dirnode-step-made-public-entry", "C13.4", loop=_NM_LOOP +
+        "\n    def create_dirnode_from_cap(self, cap):\n"
+        "        return self._create_dirnode_from_cap(cap)\n"),
+    # the method name is computed: who reaches the factories cannot be decided
+    TBL("factory-getattr-computed-name", "ANALYSIS-ERROR", loop=_NM_LOOP.replace(
+        "getattr(self, factory_name)(cap)", "getattr(self, \"_create_\" + factory_name)(cap)")),
     # ---- vanished anchor
+    # create_from_cap cut into helpers (seeded C18-I, faithful form): not followed, fails closed - must not be a violation
+    M("create-from-cap-split-into-helpers-not-followed", NM, _CFC_OLD, _CFC_SPLIT, "ANALYSIS-ERROR"),
     M("vanish-dirnode-serialised-read", DN,
       "            d = self._node.download_best_version()\n", "            d = download_to_data(self._node)\n",
       "ANALYSIS-ERROR"),
